@@ -315,7 +315,7 @@ func runScript(c *Case) lib.Result {
 					if b.String() != "abc" {
 						fail("stream payload: the flow's copy reads %q after the handlers got theirs, want \"abc\"", b.String())
 					}
-					if !waitWG(&s.wg, 5*time.Second) {
+					if !waitPending(s, 5*time.Second) {
 						fail("a handler's copy of the stream never ended")
 					}
 				}
